@@ -92,27 +92,24 @@ def call(sm, beta_final):
 
 
 def generic_checks(tag, lw_n, lz_n, lw_u, lz_u, N, tol, out):
-    """Checks that need no oracle: shapes, finiteness, sum to one, normalised = unnormalised - log(N Z)."""
+    """Checks that need no oracle: shapes, finiteness, sum to one, normalised = unnormalised - log(N Z).
+    Returns False only when the result cannot be compared any further (wrong shape / non-finite)."""
     if lw_n.shape != (N,) or lw_u.shape != (N,):
         out.append((tag + ":shape", f"shapes {lw_n.shape} {lw_u.shape}, expected ({N},)"))
         return False
     if not (np.all(np.isfinite(lw_n)) and np.all(np.isfinite(lw_u)) and math.isfinite(lz_n) and math.isfinite(lz_u)):
         out.append((tag + ":nonfinite", f"non-finite result: logw_n={lw_n.tolist()} logw_u={lw_u.tolist()} logz={lz_n},{lz_u}"))
         return False
-    ok = True
     if abs(lz_n - lz_u) > tol:
         out.append((tag + ":logz-depends-on-normalize", f"logz {lz_n!r} (normalize=True) vs {lz_u!r} (False)"))
-        ok = False
     with np.errstate(all="ignore"):
         s = float(np.exp(lw_n).sum())
     if not abs(s - 1.0) <= tol:
         out.append((tag + ":sum", f"normalised weights sum to {s!r} (|sum-1| = {abs(s - 1):.3g} > {tol:.3g})"))
-        ok = False
     d = float(np.max(np.abs(lw_n - (lw_u - lz_u - math.log(N)))))
     if not d <= tol:
         out.append((tag + ":consistency", f"normalised logw differs from logw - logz - log N by {d:.3g} > {tol:.3g}"))
-        ok = False
-    return ok
+    return True
 
 
 def replay_case(st, idx):
